@@ -78,13 +78,13 @@ type Party struct {
 	SMPPassive bool   // record SMP TLVs without acting on them (relay / scripted deviant peer)
 
 	// records
-	Exps     [][]byte
-	Rs       [][]byte
-	Received [][]byte
-	TLVsIn   []TLV
-	SymKeys  [][]byte
-	Errors   []string
-	reasm    Reassembler
+	Exps        [][]byte
+	Rs          [][]byte
+	Received    [][]byte
+	TLVsIn      []TLV
+	SymKeys     [][]byte
+	Errors      []string
+	reasm       Reassembler
 	Completions int
 }
 
